@@ -4,6 +4,7 @@ mod kind;
 mod ops_ff;
 mod ops_graph;
 mod ops_ic;
+mod ops_lax;
 mod ops_prim;
 mod ops_strict;
 mod raw;
@@ -40,6 +41,10 @@ fn main() {
         "oh" => ops_strict::StrictOps::<VecKind>::run_oh(&mut c, count),
         "graph" => ops_graph::GraphOps::<VecKind>::run_graph(&mut c, count),
         "eval" => ops_graph::GraphOps::<VecKind>::run_eval(&mut c, count),
+        "lax.edit" => ops_lax::run_edit(&mut c, count, false),
+        "lax.quot" => ops_lax::run_edit(&mut c, count, true),
+        "lax.cat" => ops_lax::run_cat(&mut c, count),
+        "lawlax" => ops_lax::run_lawlax(&mut c, count),
         "law" => ops_strict::StrictOps::<VecKind>::run_law(&mut c, count),
         g => {
             eprintln!("unknown group {}", g);
